@@ -20,43 +20,39 @@ def run(ctx):
     if not cs:
         raise AnalysisError('Container.remove no longer builds the kept contents as a whole')
     for stmt, obj, okey, value, whole, rt, before in cs:
-        dc = strip_refs(value)
-        ok_shape = isinstance(dc, ast.DictComp) and len(dc.generators) == 1
-        if not ok_shape:
+        d = filter_descriptor(ff, value)
+        if d is None:
             ctx.ob('C17.R1', fi, stmt.lineno, 'kept contents are a filter of the original contents', False,
                    fact=show(value, 80), why='the kept contents are not computed entry by entry', key='remove filter shape')
             continue
-        g = dc.generators[0]
-        it = strip_refs(g.iter)
+        it, key, val, conds = d
         own = is_items_of_contents(it) and isinstance(strip_refs(it.func.value.value), Param) and \
             strip_refs(it.func.value.value).name == fi.param_names(drop_self=False)[0]
         ctx.ob('C17.R1', fi, stmt.lineno, "the filter ranges over the container's own contents", own,
                fact=f"for .. in {show(it, 50)}", why='entries of another container are kept', key='remove filter domain')
-        key_ok = isinstance(strip_refs(dc.key), LoopVar) and strip_refs(dc.key).path == (0,)
-        val_ok = isinstance(strip_refs(dc.value), LoopVar) and strip_refs(dc.value).path == (1,)
+        key_ok = isinstance(strip_refs(key), LoopVar) and strip_refs(key).path == (0,)
+        val_ok = isinstance(strip_refs(val), LoopVar) and strip_refs(val).path == (1,)
         ctx.ob('C17.R1', fi, stmt.lineno, 'every kept entry keeps its substance and its amount unchanged', key_ok and val_ok,
-               fact=f"{{{show(dc.key, 20)}: {show(dc.value, 30)}}}",
+               fact=f"{{{show(key, 20)}: {show(val, 30)}}}",
                why='the amount of a substance that is not removed changes', key='kept value changed')
         excl = set()
         bad = None
-        conds = []
-        for c in g.ifs:
-            c0 = c
-            if isinstance(c0, ast.BoolOp) and isinstance(c0.op, ast.And):
-                conds.extend(c0.values)
-            else:
-                conds.append(c0)
-        for c in conds:
+        for c, truth in conds:
+            # normal form: the entry is kept when <c> is <truth>
+            if isinstance(c, ast.UnaryOp) and isinstance(c.op, ast.Not):
+                c, truth = c.operand, not truth
             if isinstance(c, ast.Compare) and len(c.ops) == 1:
                 op, l, r = c.ops[0], c.left, c.comparators[0]
-                if isinstance(op, ast.NotIn) and _is_what(l, what) and isinstance(r, (ast.Tuple, ast.List, ast.Set)):
-                    for e in r.elts:
+                r0 = strip_refs(r) if not isinstance(r, (ast.Tuple, ast.List, ast.Set)) else r
+                if ((isinstance(op, ast.NotIn) and truth) or (isinstance(op, ast.In) and not truth)) and \
+                        _is_what(l, what) and isinstance(r0, (ast.Tuple, ast.List, ast.Set)):
+                    for e in r0.elts:
                         excl.add(_item_role(e))
                     continue
-                if isinstance(op, ast.NotEq):
-                    for a, b in ((l, r), (r, l)):
-                        if _is_what(a, what):
-                            excl.add(_item_role(b))
+                if (isinstance(op, ast.NotEq) and truth) or (isinstance(op, ast.Eq) and not truth):
+                    for a_, b_ in ((l, r), (r, l)):
+                        if _is_what(a_, what):
+                            excl.add(_item_role(b_))
                             break
                     else:
                         bad = c
@@ -79,6 +75,35 @@ def run(ctx):
                            'well with the selector unchanged. R4: the amount a recipe records as discarded must '
                            'data-depend on the addressed selection or on the post-state (non-interference). Not '
                            'decided: numerical equality of reported and actual discarded amounts.'}
+
+
+def filter_descriptor(ff, value):
+    """The kept contents as (domain iterable, key, value, [(condition, truth)]): a dict comprehension, or a dict that
+    starts empty and is filled entry by entry in one loop with guard clauses."""
+    dc = strip_refs(value)
+    if isinstance(dc, ast.DictComp) and len(dc.generators) == 1:
+        g = dc.generators[0]
+        conds = []
+        for c in g.ifs:
+            if isinstance(c, ast.BoolOp) and isinstance(c.op, ast.And):
+                conds.extend((x, True) for x in c.values)
+            else:
+                conds.append((c, True))
+        return strip_refs(g.iter), dc.key, dc.value, conds
+    v = value
+    while isinstance(v, Ref) and isinstance(v.value, Ref):
+        v = v.value
+    built = c10.loop_built_dict(ff, v)
+    if built is None:
+        return None
+    loop, elems = built
+    if len(elems) != 1:
+        return None
+    stmt, key, val, guards = elems[0]
+    it = ff.resolved.get(id(loop))
+    if it is None:
+        return None
+    return strip_refs(it), key, val, [(f.test, f.truth) for f in guards]
 
 
 def _is_what(e, what):
